@@ -126,6 +126,13 @@ def run_impl(case):
     rng = random.Random(case['dx_seed'])
     vs = [Vertex(i, make_pose(rng, k), fixed=f) for i, k, f in zip(case['ids'], case['kinds'], case['fixed'])]
     es = [ScriptedEdge(list(vids), np.array(om, dtype=np.float64), err, jacs) for (vids, err, om, jacs) in case['edges']]
+    if rng.random() < 0.3:
+        # the same edge objects were used before in ANOTHER graph over different Vertex objects carrying the same ids:
+        # construction must re-bind every edge to the vertices of THIS graph
+        try:
+            Graph(es, [Vertex(v.id, v.pose.copy(), fixed=v.fixed) for v in vs])
+        except Exception:  # noqa
+            pass
     try:
         g = Graph(es, vs)
     except KeyError:
@@ -166,7 +173,8 @@ def run_impl(case):
     if 'A' not in rec:
         return {'status': 9, 'detail': 'spsolve was not called'}
     return {'status': 0, 'chi2': rec.get('chi2', None), 'N': N, 'grad': (-rec['b']).tolist(), 'hess': rec['A'].tolist(),
-            'fixed_after': fixed_after, 'slots': [[vs.index(v) for v in e.vertices] for e in es], 'moved_ok': moved_ok, 'detail': detail,
+            'fixed_after': fixed_after,
+            'slots': [[next((k for k, w in enumerate(vs) if w is v), -1) for v in e.vertices] for e in es], 'moved_ok': moved_ok, 'detail': detail,
             'graph_chi2': float(g._chi2) if g._chi2 is not None else None}
 
 
